@@ -86,11 +86,14 @@ func simplifyCurve(curve Path,
 	for {
 		out = append(out, curve[i])
 		breakTime := false
-		for j := i + 2; j < len(curve); j++ {
+		for j := i + 2; j <= len(curve); j++ {
 			breakTime2 := false
 			for k := i + 1; k < j; k++ {
-				d := distPointToSegment(curve[k], curve[i], curve[j])
-				if d > tol {
+				// The last point is always kept: reaching the end of the curve
+				// (j == len(curve)) makes it a candidate like any other, so that
+				// the closing segment is checked for self intersections too.
+				if j == len(curve) ||
+					distPointToSegment(curve[k], curve[i], curve[j]) > tol {
 					// we have found a candidate point to keep
 					for {
 						// Make sure this simplification doesn't cause any self
@@ -112,9 +115,8 @@ func simplifyCurve(curve Path,
 					break
 				}
 			}
-			if j == len(curve)-1 {
-				// Add last point regardless of distance.
-				out = append(out, curve[j])
+			if i == len(curve)-1 {
+				// The last point has been added.
 				breakTime = true
 			}
 		}
